@@ -159,7 +159,11 @@ def run_verlet(case):
 # ------------------------------------------------------------------ refresh
 @st.composite
 def refresh_case(draw):
-    return {"T": draw(log10_floats(0, 4)), "seed": draw(st.integers(0, 2 ** 32)), "mlog": [draw(fl(0, 2.3)) for _ in range(8)], "mode": draw(st.sampled_from(["dist", "dist", "forced", "move"]))}
+    return {"T": draw(log10_floats(0, 4)), "seed": draw(st.integers(0, 2 ** 32)), "mlog": [draw(fl(0, 2.3)) for _ in range(8)], "mode": draw(st.sampled_from(["dist", "dist", "forced", "move"])),
+            # forced mode: optional constraints (the kinetic temperature counts the remaining degrees of freedom)
+            "constraint": draw(st.sampled_from([None, "FixAtoms", "FixCom", "FixAtoms+FixCom"])), "nfixed": draw(st.integers(1, 150)),
+            # move mode: the distribution handed to the move (a recording wrapper, or the shipped one used directly)
+            "dist_kind": draw(st.sampled_from(["wrapped", "direct", "direct-forced"]))}
 
 
 def run_refresh(case):
@@ -183,6 +187,17 @@ def run_refresh(case):
                 ctx = HamiltonianDisplacementContext(atoms, rng)
                 ctx.temperature = T
                 if case["mode"] == "forced":
+                    con = case.get("constraint")
+                    if con:
+                        from ase.constraints import FixAtoms, FixCom
+
+                        cons = []
+                        if "FixAtoms" in con:
+                            cons.append(FixAtoms(indices=list(range(0, n, max(1, n // int(case.get("nfixed", 1))))) [: int(case.get("nfixed", 1))]))
+                        if "FixCom" in con and con != "FixAtoms+FixCom":
+                            cons.append(FixCom())
+                        atoms.set_constraint(cons)
+                        labels.append("forced:" + con)
                     for _ in range(20):
                         maxwell_boltzmann_distribution(ctx, forced=True)
                         kt = 2 * atoms.get_kinetic_energy() / atoms.get_number_of_degrees_of_freedom()
@@ -211,9 +226,17 @@ def run_refresh(case):
             ctx.temperature = T
             recorded = []
 
+            dk = case.get("dist_kind", "wrapped")
+            labels.append("dist:" + dk)
+
             def dist(context):
                 maxwell_boltzmann_distribution(context)
                 recorded.append(float(context.atoms.get_kinetic_energy()))
+
+            if dk != "wrapped":
+                from functools import partial
+
+                dist = partial(maxwell_boltzmann_distribution, forced=(dk == "direct-forced"))
 
             vetoes = [True, False] if case["seed"] % 2 else [False]
             started = []
@@ -229,6 +252,13 @@ def run_refresh(case):
             for trial in range(3):
                 it = iter(vetoes)
                 ok = mv(ctx)
+                if ok and dk != "wrapped":
+                    # the shipped distribution used directly: the momenta the trajectory starts from are the fresh ones
+                    if not started or ctx.last_kinetic_energy != started[-1]:
+                        out["violation"] = {"kind": "reference-kinetic-energy", "detail": f"distribution={dk}: context.last_kinetic_energy={ctx.last_kinetic_energy!r} but the trajectory started from momenta with KE={(started[-1] if started else None)!r}"}
+                        return out
+                    ctx.save_state()
+                    continue
                 if not ok or not recorded:
                     continue
                 if ctx.last_kinetic_energy != recorded[-1]:
